@@ -341,10 +341,13 @@ class JoinedString(Array, String):
         prune = self.prune_empty
         success = []
         for value in values:
-            if prune and not value:
-                continue
             child = self.member_schema()
-            success.append(child.set(value))
+            adapted = child.set(value)
+            # prune on what the member makes of the piece (0 is a value, a
+            # blank-only piece of a stripping member is not)
+            if prune and child.u == "":
+                continue
+            success.append(adapted)
             self.append(child)
 
         res = all(success)
